@@ -233,6 +233,20 @@ def walk(n):
             yield from walk(c)
 
 
+def walk_nolambda(n):
+    """pre-order like walk() but does not descend into lambda bodies (their returns / calls belong to the lambda)."""
+    if isinstance(n, dict):
+        stack = [n]
+        while stack:
+            x = stack.pop()
+            yield x
+            if x.get('k') == 'LambdaExpr' and x is not n:
+                continue
+            ks = list(kids(x))
+            ks.reverse()
+            stack.extend(ks)
+
+
 _SRC = {}
 
 
